@@ -4,7 +4,7 @@ import os, sys, random, math, types
 from fractions import Fraction
 import vlib
 
-LEAN_TARGETS = ['CvxVerif.Props.C08', 'CvxVerif.Props.C08Pack']
+LEAN_TARGETS = ['CvxVerif.Props.C08', 'CvxVerif.Props.C08Pack', 'CvxVerif.Props.C08Diag']
 MODEL_FILES = ['CvxVerif.Model.Kernels', 'CvxVerif.Proofs.Kernels']
 LEVEL = 'proof'
 TRUSTED = ['hand-written model lean/CvxVerif/Model/Kernels.lean (transcribed from the Python reference implementations in misc.py), tied by '
@@ -114,6 +114,12 @@ def correspond(ctx):
             lines.append('sprod dims=%s x=%s y=%s' % (dt, vtok(x), vtok(y))); obs.append(vtok(list(X))); meta.append(name)
             if list(Y)[:mnl + d['l'] + sum(d['q'])] != y[:mnl + d['l'] + sum(d['q'])]:
                 ctx.violation('c08:sprod-modifies-y:' + name, 'sprod changed the l/q part of its second argument', {'dims': d})
+            # sprod with diag='D' and ssqr (the 's' parts of y are diagonals): exact on dyadic data, against the Lean model
+            Nd = mnl + d['l'] + sum(d['q']) + sum(d['s']); yd = [dy(rng) for _ in range(Nd)]
+            X = matrix(x, (N, 1), 'd'); M.sprod(X, matrix(yd, (Nd, 1), 'd'), d, mnl, diag='D')
+            lines.append('sproddiag dims=%s x=%s y=%s' % (dt, vtok(x), vtok(yd))); obs.append(vtok(list(X))); meta.append(name)
+            X = matrix(7.0, (Nd, 1)); M.ssqr(X, matrix(yd, (Nd, 1), 'd'), d, mnl)
+            lines.append('ssqr dims=%s y=%s' % (dt, vtok(yd))); obs.append(vtok(list(X))); meta.append(name)
         # ---- identities on both implementations (random interior data, tolerance) ----
         xr = [rng.uniform(-2, 2) for _ in range(N)]; yr = [rng.uniform(-2, 2) for _ in range(N)]
         for name, M in impls:
@@ -358,8 +364,14 @@ def correspond(ctx):
                     ctx.violation('c08:unpack-model:' + name, 'unpack of an order-%d block: entry (%d,%d) is %r, model %r (%s implementation)' % (k, i, j, got, want, name), {'k': k, 'line': plines[q + 1]})
     out = vlib.drive('C08', lines)
     dis = 0
+    def near(o, m):
+        # ssqr computes the head of a 'q' block as nrm2(y)**2 (a square root, squared): equal to the model up to rounding
+        try:
+            a = [float(Fraction(t)) for t in o.split(',')] if o != '-' else []; b = [float(Fraction(t)) for t in m.split(',')] if m != '-' else []
+        except (ValueError, ZeroDivisionError): return False
+        return len(a) == len(b) and all(abs(u - v) <= 1e-13 * (1 + abs(v)) for u, v in zip(a, b))
     for l, o, m, name in zip(lines, obs, out, meta):
-        if o != m:
+        if o != m and not (l.startswith('ssqr ') and near(o, m)):
             dis += 1
             if dis <= 4:
                 ctx.violation('c08:%s:%s' % (l.split(' ')[0], name), 'kernel %s (%s implementation): `%s` gives `%s`, model `%s`' % (l.split(' ')[0], name, l[:200], o[:120], m[:120]),
@@ -367,7 +379,7 @@ def correspond(ctx):
     ctx.cov.update({'evaluations': len(lines) + ident, 'distinct_nontrivial': len(set(lines)),
                     'rule': '%d random cone structures (l 0..3, up to two q blocks of dimension 1..4, up to two s blocks of order 0..3, mnl 0..2) with dyadic '
                             'vectors and exactly invertible scalings (powers of two, Pythagorean v, unimodular r): sdot, symm, trisc, triusc, scale (all four '
-                            'flag combinations, two columns), sprod compared exactly with the Lean model for BOTH implementations; inverse/adjoint/pack/'
+                            'flag combinations, two columns), sprod (full and diagonal), ssqr compared exactly with the Lean model for BOTH implementations (the head of a q block of ssqr to rounding: it is nrm2 squared); inverse/adjoint/pack/'
                             'max_step identities on random data with tolerance 1e-9' % n,
                     'protocol_lines_compared': len(lines), 'disagreements_checked': dis, 'identity_checks': ident, 'implementations': ['C', 'python']})
     ctx.samples += lines[:3]
